@@ -10,11 +10,13 @@ import (
 )
 
 func checkAccountBalance(g *GenesisConfig, addr types.Address, required map[types.ZenonTokenStandard]*big.Int) error {
+	found := false
 	// Check account balance for enough qsr
 	for _, block := range g.GenesisBlocks.Blocks {
 		if block.Address != addr {
 			continue
 		}
+		found = true
 
 		for zts, amount := range block.BalanceList {
 			requiredAmount, ok := required[zts]
@@ -31,6 +33,15 @@ func checkAccountBalance(g *GenesisConfig, addr types.Address, required map[type
 			_, ok := block.BalanceList[token]
 			if !ok && required[token].Cmp(common.Big0) != 0 {
 				return errors.Errorf("invalid balance for %v Expected token %v to be present", addr, token)
+			}
+		}
+	}
+
+	// a holding which is required must be backed by a balance block
+	if !found {
+		for token, amount := range required {
+			if amount.Cmp(common.Big0) != 0 {
+				return errors.Errorf("invalid balance for %v Expected %v %v but the address has no genesis block", addr, amount, token)
 			}
 		}
 	}
@@ -119,8 +130,17 @@ func CheckPillarBalance(g *GenesisConfig) error {
 }
 func CheckTokenTotalSupply(g *GenesisConfig) error {
 	given := make(map[types.ZenonTokenStandard]*big.Int)
+	listed := make(map[types.Address]bool)
 	for _, block := range g.GenesisBlocks.Blocks {
+		// the genesis state holds one balance per address
+		if listed[block.Address] {
+			return errors.Errorf("address %v has more than one genesis block", block.Address)
+		}
+		listed[block.Address] = true
 		for zts, amount := range block.BalanceList {
+			if amount == nil || amount.Sign() < 0 {
+				return errors.Errorf("invalid balance for %v Amount of %v is %v", block.Address, zts, amount)
+			}
 			total, ok := given[zts]
 			if !ok {
 				given[zts] = new(big.Int).Set(amount)
@@ -136,6 +156,8 @@ func CheckTokenTotalSupply(g *GenesisConfig) error {
 			return errors.Errorf("token %v declared but not given at all", token)
 		} else if token.TotalSupply.Cmp(total) != 0 {
 			return errors.Errorf("invalid token total balance for %v Expected %v but got %v", token, total, token.TotalSupply)
+		} else if token.MaxSupply != nil && token.MaxSupply.Cmp(token.TotalSupply) < 0 {
+			return errors.Errorf("invalid token max supply for %v Total supply %v exceeds it", token, token.TotalSupply)
 		}
 	}
 
